@@ -95,13 +95,14 @@ def blank_rows(sheets, sheet, pos, k):
     return s
 
 
-def blank_cols(sheets, sheet, pos, j):
+def blank_cols(sheets, sheet, pos, j, stray=None):
+    """stray: text put into some cells under the header-less columns (an author's scratch notes): a column without a header carries no data"""
     s = copy.deepcopy(sheets)
     h, rows = s[sheet]
     pos = max(1, min(pos, len(h)))
     h[pos:pos] = [None] * j
-    for r in rows:
-        r[pos:pos] = [None] * j
+    for k, r in enumerate(rows):
+        r[pos:pos] = [stray if (stray is not None and (k + c) % 3 == 0) else None for c in range(j)]
     return s
 
 
@@ -155,6 +156,11 @@ def compare_all(ctx, form, sheets, sig, variant, fmts, rng, all_channels=False):
             ctx.ctr("renderings_compared")
             ctx.case(sig=f"{sig}|{fmt}|{ch}|{variant}")
             d = outcome_diff(ref, o)
+            if d and fmt == "md" and d[0] == "outcome" and not o.ok and "missing mapping for 'None'" in (o.exc_msg or "") and variant.startswith("blank-cols"):
+                # one mechanism, whatever the channel or the number of columns: recorded (a pinned test asserts this very error)
+                ctx.viol("differs:md:data-under-a-blank-header-cell-refused", f"[md/{ch}/{variant}] cells under a header-less column: {o.brief()[:200]}",
+                         common.witness(form, fmt=fmt, channel=ch, variant=variant, sheets=_jsonable(sheets)))
+                continue
             if d:
                 ctx.viol(f"differs:{fmt}:{ch if ch in ('path', 'pathlike', 'bytes_implicit') else 'content'}:{variant}:{d[0]}",
                          f"[{fmt}/{ch}/{variant}] differs from dict reference in {d[0]}: {d[1]}"[:900],
@@ -388,7 +394,7 @@ def run_shard(ctx):
         ctx.ctr("empty_run_cases")
         j = rng.choice([1, 2, 19, 20, 20])
         sh2 = rng.choice([s for s in ("survey", "choices", "settings", "external_choices", "external_choices") if s in sheets])
-        cs = blank_cols(sheets, sh2, rng.randint(1, len(sheets[sh2][0])), j)
+        cs = blank_cols(sheets, sh2, rng.randint(1, len(sheets[sh2][0])), j, stray=rng.choice([None, None, "scratch note", "1"]))
         if rng.random() < 0.5:
             cs = blank_cols(cs, sh2, len(cs[sh2][0]), rng.choice([1, 5, 30]))  # trailing blank columns
         variant = f"blank-cols={j}"
